@@ -194,7 +194,7 @@ func (w *World) Expectation(rec *ScanRecord, gr *GroupRec) Expect {
 	if o.ScaleOnStarve && U < gr.EffMax {
 		ex.Starve = w.starved(gv)
 	}
-	if age := o.MaxNodeAgeDuration(); age > 0 && U == gr.EffMin && U > 0 && len(gv.Tainted) == 0 {
+	if age := Dur(o.MaxNodeAge); age > 0 && U == gr.EffMin && U > 0 && len(gv.Tainted) == 0 {
 		for _, nd := range gv.Untainted {
 			if gr.Start.Sub(nd.CreationTimestamp.Time) > age {
 				ex.MaxAge = true
@@ -423,7 +423,7 @@ func (w *World) M01(rec *ScanRecord) []Violation {
 			out = append(out, viol("C01", "removed-unreadable-taint-time", "%s: node %s taint value %q is not a time", what, v.Name, briefTaints(v)))
 			continue
 		}
-		soft, hard := o.SoftDeleteGracePeriodDuration(), o.HardDeleteGracePeriodDuration()
+		soft, hard := Dur(o.SoftDeleteGracePeriod), Dur(o.HardDeleteGracePeriod)
 		// the escalator key may be present more than once (different effects): the removal is
 		// justified if any recorded time satisfies the rule
 		best, bestAge := "removed-before-soft", time.Duration(0)
@@ -455,7 +455,7 @@ func (w *World) M02(rec *ScanRecord) []Violation {
 		if !gr.Processed {
 			continue
 		}
-		cd := w.Cfg.Groups[gr.G].Opts.ScaleUpCoolDownPeriodDuration()
+		cd := Dur(w.Cfg.Groups[gr.G].Opts.ScaleUpCoolDownPeriod)
 		t0, have := gr.LockT0, !gr.LockT0.IsZero()
 		if rec.Restarted {
 			have = false
@@ -718,7 +718,7 @@ func (w *World) M06(rec *ScanRecord) []Violation {
 			// a group past its cool-down that still behaves as locked breaks C02's release half
 			if !gr.LockT0.IsZero() && !rec.Restarted && k == 0 && un == 0 && inc == 0 && gr.K8sWrites+gr.AWSWrites == 0 {
 				out = append(out, viol("C02", "lock-outlives-cooldown", "group %d: cool-down %v ended at %v, scan at %v still takes no action (expected %v)", gr.G,
-					o.ScaleUpCoolDownPeriodDuration(), gr.LockT0.Add(o.ScaleUpCoolDownPeriodDuration()).UTC().Format(time.RFC3339Nano), gr.Start.UTC().Format(time.RFC3339Nano), want))
+					Dur(o.ScaleUpCoolDownPeriod), gr.LockT0.Add(Dur(o.ScaleUpCoolDownPeriod)).UTC().Format(time.RFC3339Nano), gr.Start.UTC().Format(time.RFC3339Nano), want))
 			}
 		}
 	}
@@ -795,7 +795,7 @@ func (w *World) M07(rec *ScanRecord) []Violation {
 			if K == 0 && nreq == 0 && (P > 0 || B-cur > 0) && !gr.LockT0.IsZero() && !rec.Restarted && gr.K8sWrites+gr.AWSWrites == 0 {
 				o := &w.Cfg.Groups[gr.G].Opts
 				out = append(out, viol("C02", "lock-outlives-cooldown", "group %d: cool-down %v ended at %v, scan at %v below minimum (untainted %d < %d) still takes no action", gr.G,
-					o.ScaleUpCoolDownPeriodDuration(), gr.LockT0.Add(o.ScaleUpCoolDownPeriodDuration()).UTC().Format(time.RFC3339Nano), gr.Start.UTC().Format(time.RFC3339Nano), len(gr.GV.Untainted), gr.EffMin))
+					Dur(o.ScaleUpCoolDownPeriod), gr.LockT0.Add(Dur(o.ScaleUpCoolDownPeriod)).UTC().Format(time.RFC3339Nano), gr.Start.UTC().Format(time.RFC3339Nano), len(gr.GV.Untainted), gr.EffMin))
 			}
 			rem := N - K
 			if rem > 0 {
@@ -967,7 +967,7 @@ func (w *World) M10b(rec *ScanRecord) []Violation {
 			}
 			age := gr.Start.Sub(times[0])
 			empty := len(gr.GV.PodsOn(n.Name)) == 0
-			eligible := age > o.HardDeleteGracePeriodDuration() || (age > o.SoftDeleteGracePeriodDuration() && empty)
+			eligible := age > Dur(o.HardDeleteGracePeriod) || (age > Dur(o.SoftDeleteGracePeriod) && empty)
 			if eligible && !asked[n.Name] {
 				out = append(out, viol("C10", "annotation-holds-back-others", "group %d: node %s (tainted %v ago, empty=%v) is removable but was not part of any removal request while an annotated node is present", gr.G, n.Name, age, empty))
 				break
